@@ -2575,6 +2575,11 @@ orc_neon_emit_shift(OrcCompiler *const p, int type,
     ORC_COMPILER_ERROR(p, "shift too large");
     return;
   }
+  if (shift == 0 && immshift_info[type].negate) {
+    /* The right shifts encode 1..bits only.  A shift by 0 leaves the value
+     * as it is, which the left shift of the same width can express. */
+    type -= type % 3;
+  }
   if (p->is_64bit) {
     code = immshift_info[type].code64;
     ORC_ASM_CODE(p, "  %s %s, %s, #%d\n", immshift_info[type].name64,
